@@ -27,6 +27,8 @@ import (
 	"sync"
 	"sync/atomic"
 	"time"
+
+	syscall "golang.org/x/sys/unix"
 )
 
 // Session is used to wrap a reliable ordered connection and to
@@ -153,6 +155,7 @@ func newSession(config *Config, conn net.Conn, isClient bool) (*Session, error) 
 	}
 
 	if err := s.initMemManager(); err != nil {
+		fd.Close()
 		return nil, fmt.Errorf("create share memory buffer manager failed ,error=%w", err)
 	}
 	if err := s.initProtocol(); err != nil {
@@ -162,6 +165,8 @@ func newSession(config *Config, conn net.Conn, isClient bool) (*Session, error) 
 		if s.bufferManager != nil {
 			addGlobalBufferManagerRefCount(s.bufferManager.path, -1)
 		}
+		// the duplicated descriptor is ours: without this it stayed open until a finalizer happened to run
+		fd.Close()
 		return nil, err
 	}
 
@@ -213,6 +218,10 @@ func (s *Session) initProtocol() error {
 	case err := <-resultCh:
 		return err
 	case <-timeout.C:
+		// wake the handshake goroutine, which may sit in a blocking read for as long as the peer keeps the
+		// connection open, and wait for it: whatever it has mapped by then is released by the caller.
+		syscall.Shutdown(s.connFd, syscall.SHUT_RDWR)
+		<-resultCh
 		return fmt.Errorf("protocolInitializer init timeout:%d ms",
 			s.config.InitializeTimeout/time.Millisecond)
 	}
